@@ -2,7 +2,8 @@
 operation list, printing cases as Coq terms, generating Tor-format reply items and sessions."""
 from coqterm import B, Bool, C, L, N, Pair, Rec
 
-EVENT_NAMES = ['CIRC', 'STREAM', 'NS', 'DESCCHANGED', 'CONF_CHANGED', 'HS_DESC', 'BW']
+EVENT_NAMES = ['CIRC', 'STREAM', 'NS', 'DESCCHANGED', 'CONF_CHANGED', 'HS_DESC', 'BW', 'STREAM_BW', 'CIRC_BW', 'CIRC_MINOR',
+               'HS_DESC_CONTENT']
 
 
 def enc(s):
